@@ -61,14 +61,15 @@ theorem C12_edit_fasta_set_spec (f f' : Fasta) (h seq : Str) (items : List (Str 
 
 /-! ## FASTQ -/
 
-/-- **Offset arithmetic.**  For every offset representable in `int8` and every score that maps to
-a printable non-blank ASCII character, decoding the encoded score string gives the scores back;
+/-- **Offset arithmetic.**  For **every** integer offset (no `int8` bound since the reader was
+repaired) and every score that maps to a printable non-blank ASCII character (`ScoreOk` — exactly
+the scores the writer accepts, see `C12_fastq_scores_rejected`), decoding the encoded score string gives the scores back;
 the string has one character per score and no character `strip()` would remove. -/
-theorem C12_fastq_offset (off : Int) (hoff : -128 ≤ off ∧ off ≤ 127) (qs : List Int)
+theorem C12_fastq_offset (off : Int) (qs : List Int)
     (h : ∀ q ∈ qs, ScoreOk off q) :
     ∃ s, encodeScores off qs = .ok s ∧ decodeScores off s = .ok qs ∧ s.length = qs.length ∧
          ∀ c ∈ s, 33 ≤ c.toNat ∧ c.toNat ≤ 126 :=
-  fastq_offset off hoff qs h
+  fastq_offset off qs h
 
 /-- **The length-driven state machine is insensitive to `@` / `+` at line starts inside score
 blocks.**  One entry written under *any* wrapping of the sequence (`sc`) and of the score string
@@ -85,21 +86,21 @@ theorem C12_fastq_state_machine (id seq sq : Str) (sc qc rest : List Str) (i : N
 /-- **FASTQ round trip**, every supported offset, `chars_per_line` none or any width ≥ 1:
 non-empty sequences with in-range scores set into an empty file, the text re-read, give the same
 entries (identifier, sequence, scores) in the same order. -/
-theorem C12_fastq (off : Int) (hoff : -128 ≤ off ∧ off ≤ 127) (cpl cpl' : Option Nat)
+theorem C12_fastq (off : Int) (cpl cpl' : Option Nat)
     (hcpl : ∀ w, cpl = some w → 1 ≤ w)
     (es : List (Str × Str × List Int)) (hne : es ≠ [])
     (hid : ∀ e ∈ es, QIdOk e.1) (hseq : ∀ e ∈ es, QSeqOk e.2.1) (hlen : ∀ e ∈ es, e.2.1.length = e.2.2.length)
     (hq : ∀ e ∈ es, ∀ q ∈ e.2.2, ScoreOk off q) (hnd : (es.map (·.1)).Nodup) :
     ∃ f0 f, es.foldlM (fun f e => fastqSet f e.1 e.2.1 e.2.2) (Fastq.empty off cpl) = .ok f0 ∧
             fastqRead (textRoundTrip f0.lines) off cpl' = .ok f ∧ fastqItems f = .ok es :=
-  fastq_roundtrip off hoff cpl cpl' hcpl es hne hid hseq hlen hq hnd
+  fastq_roundtrip off cpl cpl' hcpl es hne hid hseq hlen hq hnd
 
-/-- **Out-of-range scores are rejected, never wrapped.**  If some `score + offset` is not an ASCII
-code (`0..127`), encoding fails with `ValueError` (repaired: the sum used to be cast to `int8`), and
+/-- **Out-of-range scores are rejected, never wrapped or written as blanks.**  If some
+`score + offset` is not a printable non-blank ASCII code (`33..126`), encoding fails with `ValueError` (repaired: the sum used to be cast to `int8`), and
 `__setitem__` fails as a whole **without touching the file** — in the model a failed `fastqSet`
 returns no new state, in the code the old entry is deleted only after the new lines exist. -/
 theorem C12_fastq_scores_rejected (f : Fastq) (id seq : Str) (qs : List Int)
-    (h : ∃ q ∈ qs, q + f.off < 0 ∨ 127 < q + f.off) :
+    (h : ∃ q ∈ qs, q + f.off < 33 ∨ 126 < q + f.off) :
     encodeScores f.off qs = .error .valueError ∧ ∀ f', fastqSet f id seq qs ≠ .ok f' := by
   have he := qEncode_rejects f.off qs h
   refine ⟨he, ?_⟩
@@ -123,11 +124,11 @@ theorem C12_edit_consistent_fastq (f f' : Fastq) (id seq : Str) (qs : List Int)
 /-- … and the mapping view follows the dictionary specification for a new key. -/
 theorem C12_edit_fastq_set_spec (f : Fastq) (id seq : Str) (qs : List Int) (items : List (Str × Str × List Int))
     (hinv : fastqFind f.lines = .ok f.entries) (hseq : QSeqOk seq)
-    (hoff : -128 ≤ f.off ∧ f.off ≤ 127) (hq : ∀ q ∈ qs, ScoreOk f.off q)
+    (hq : ∀ q ∈ qs, ScoreOk f.off q)
     (hlen : seq.length = qs.length) (hfresh : f.entries.lookup (normHeader id) = none)
     (hcpl : ∀ w, f.cpl = some w → 1 ≤ w) (hitems : fastqItems f = .ok items) :
     ∃ f', fastqSet f id seq qs = .ok f' ∧ fastqItems f' = .ok (items ++ [(normHeader id, seq, qs)]) :=
-  fastq_set_items_fresh f id seq qs items hinv hseq hoff hq hlen hfresh hcpl hitems
+  fastq_set_items_fresh f id seq qs items hinv hseq hq hlen hfresh hcpl hitems
 
 /-! ## GenBank locations -/
 
@@ -294,7 +295,7 @@ theorem C12_gen_feature_columns :
 /-- `_OFFSETS` (fastq/file.py): every format offset fits `int8` and maps score 0 to a printable,
 non-blank character, and the five format names are present. -/
 theorem C12_gen_fastq_offsets :
-    (∀ p ∈ Gen.C12.fastqOffsets, -128 ≤ p.2 ∧ p.2 ≤ 127 ∧ ScoreOk p.2 0) ∧
+    (∀ p ∈ Gen.C12.fastqOffsets, ScoreOk p.2 0) ∧
     Gen.C12.fastqOffsets.lookup "Sanger" = some 33 ∧ Gen.C12.fastqOffsets.lookup "Illumina-1.8" = some 33 ∧
     Gen.C12.fastqOffsets.lookup "Solexa" = some 64 ∧ Gen.C12.fastqOffsets.lookup "Illumina-1.3" = some 64 ∧
     Gen.C12.fastqOffsets.lookup "Illumina-1.5" = some 64 := by
